@@ -624,7 +624,73 @@ def _first_diff(a, b):
 
 
 # ---------------------------------------------------------------------------
+# ---------------------------------------------------------------------------
+# Canary: fresh objects must also be independent of what OTHER objects did
+# earlier in the process (state kept at class or module level).  Taken once in
+# the pristine process and again after every history.
+# ---------------------------------------------------------------------------
+_CANARY = None
+_CANARY_TEXTS = [
+    'println [floor 2.5] println [sqrt 16] println [round 7.6]',
+    'define k 3 assign v {k * 2} printf "{} {} {hue}\\n" v k units raw '
+    'println hue units logical hue 120 println hue',
+    'define rt with a begin println {a + 1} end rt 4 repeat 2 begin print 5 '
+    'end println 6',
+    'time at 10:1* or *:30 time 0 println "p"',
+    'assign floor 3 println floor',
+]
+
+
+def _canary_now():
+    from sim import policy
+    from bardolph.lib import injection
+    from bardolph.runtime import runtime_module
+    from bardolph.parser.parse import Parser
+    from bardolph.controller.script_job import ScriptJob
+    out = []
+    injection.configure()
+    runtime_module.configure()
+    for t in _CANARY_TEXTS:
+        out.append(compile_outcome(Parser(), t))
+    cap = env.capture_logs()
+
+    def main(sim):
+        env.build_world(sim, [], settings={'sleep_time': 0.1},
+                        discover=False)
+        for t in _CANARY_TEXTS:
+            job = ScriptJob()
+            job.load_string(t)
+            job.execute()
+            job.execute()           # a second run of the same fresh job
+
+    with world.StdoutCapture() as so:
+        sim, res = world.run_sim(main, policy.ReplayChooser([]), gran='sync',
+                                 step_cap=50000)
+    out.append(('stdout', so.text(), res.status))
+    out.append(('errors', tuple(m for lv, m in cap.records
+                                if lv in ('ERROR', 'CRITICAL'))))
+    return out
+
+
 def execute(scenario, chooser):
+    global _CANARY
+    if _CANARY is None:
+        _CANARY = _canary_now()
+    res = _execute(scenario, chooser)
+    now = _canary_now()
+    if now != _CANARY and not res.get('harness_error'):
+        k = next(i for i in range(len(now)) if now[i] != _CANARY[i])
+        res['violations'].append({
+            'sig': 'C17/process-state/fresh-objects-depend-on-history',
+            'msg': 'after this history, FRESH Parser/ScriptJob objects give a '
+                   'different result for a fixed canary script than they gave '
+                   'when the process started: item {}: {!r} vs {!r}'.format(
+                       k, now[k], _CANARY[k])[:900]})
+        _CANARY = now       # report once per change
+    return res
+
+
+def _execute(scenario, chooser):
     sc = scenario
     cap = env.capture_logs()
     viol = []
